@@ -1,5 +1,5 @@
 (* C12 — switch-label source routes.  Property theorems only; proofs in SwitchLabelProofs.v. *)
-From Verif Require Import Prelude SwitchLabel SwitchLabelProofs Gen Translated.
+From Verif Require Import Prelude SwitchLabel SwitchLabelProofs Gen Translated TranslatedDec TranslatedImp.
 
 (* A valid path: forward labels F = f_0..f_{n-2} and return labels R = r_1..r_{n-1}, all in
    1..65535 (f_{n-1} = 0 = r_0 are added by mk_hops), n >= 2 hops, any n that fits.
@@ -74,3 +74,23 @@ Proof. cbv zeta. repeat split; try discriminate; vm_compute; reflexivity. Qed.
 Theorem C12_source_encoded_size_is_model : forall x, Gen.go_SwitchLabel_EncodedSize x = Z.of_nat (esize x).
 Proof. exact go_encoded_size_is_model. Qed.
 Print Assumptions C12_source_encoded_size_is_model.
+
+(* ---------- the translated source of the two in-place block functions ---------- *)
+(* NextRotateSwitchBlock and TransformToReturnBlock are translated from m/switch_label.go on every
+   run (harness/gen_translate_imp.go: the byte slice as a list renamed on every mutation, the
+   sub-slice labelSlot as a view of the same memory, both loops as generated Fixpoints, every index
+   and slice expression with its bound check, binary.Uvarint / PutUvarint / copy / clear /
+   slices.Reverse as library functions of the generated prelude).  For EVERY block and every
+   uint16 return label the translated rotation returns the model's next label and leaves the
+   model's block, or fails where the model fails; the translated transformation leaves the
+   model's return block.  The traversal theorems above are therefore theorems about what the Go
+   source computes. *)
+Theorem C12_source_rotate_is_model : forall block ret, ret < 65536 ->
+  ires_rot (Gen.go_NextRotateSwitchBlock block (Z.of_N ret)) = forget_code (rotate block [] ret).
+Proof. intros block ret H. apply go_rotate_is_model; [exact H | reflexivity]. Qed.
+Print Assumptions C12_source_rotate_is_model.
+
+Theorem C12_source_transform_is_model : forall block,
+  Gen.go_TransformToReturnBlock block = IOk [] (transform block).
+Proof. intros block. apply go_transform_is_model. reflexivity. Qed.
+Print Assumptions C12_source_transform_is_model.
